@@ -43,8 +43,8 @@ inductive Field where
   deriving DecidableEq, Repr
 
 /-- location metadata; `none` = not known: every row of that location carries a missing-value
-token in that column (when the column is present) and the coordinate reads as the default 0,
-exactly as when the column is absent -/
+token in that column (when the column is present) and the coordinate reads as missing (NaN), as the
+same entry of a NetCDF file does; the default 0 is for a file WITHOUT that column -/
 structure Station where
   lat : Option Rat
   lon : Option Rat
@@ -119,11 +119,11 @@ def metaTok (o : Option Rat) (m : Tok) : Tok :=
   | some q => .num q
   | none => m
 
-/-- what a metadata coordinate reads as: its value, the default 0 when it is not known -/
+/-- what a metadata coordinate reads as: its value, missing (NaN) when it is not known -/
 def metaVal (o : Option Rat) : XR :=
   match o with
   | some q => .fin q
-  | none => .fin 0
+  | none => .nan
 
 def cellTok (T : Table) (L : Layout) (r : Case × Row) : Col → Tok
   | .unixtime => .num r.1.time
@@ -249,8 +249,8 @@ def leadOK (L : Layout) (c : Case) : Prop :=
 def hasIdCol (L : Layout) : Bool := decide (Col.location ∈ L.cols) || decide (Col.id ∈ L.cols)
 
 /-- the location as the file shows it: id (when there is an id column) and the metadata columns
-present; absent metadata and metadata written as a missing-value token read 0 (never the
-metadata of another location) -/
+present; an absent metadata column reads 0, metadata written as a missing-value token reads NaN
+(never the metadata of another location, never an invented number) -/
 def locOf (T : Table) (L : Layout) (id : Rat) : Loc :=
   { id := if hasIdCol L then .fin id else .nan
     lat := if Col.lat ∈ L.cols then metaVal (T.station id).lat else .fin 0
